@@ -120,7 +120,8 @@ def q2J (g : Graph) (t : Option Int) (nb : Option (List Node)) : J :=
     (if d then [("in_inter", interJ g (g.inInteractions nb t)), ("out_inter", interJ g (g.outInteractions nb t)),
                 ("in_inter_iter", interJ g (g.inInteractions nb t)), ("out_inter_iter", interJ g (g.outInteractions nb t))] else []) ++
     (let dg := degJ (nbl.map (fun n => (n, g.degree n t)))
-     [("deg", dg), ("deg_iter", dg), ("f_deg", dg)]) ++
+     [("deg", dg), ("deg_iter", dg), ("f_deg", dg)] ++
+       (if nb.isSome then [("deg_once", dg), ("inter_once", interJ g (g.interactions nb t))] else [])) ++
     (if d then
       let i := degJ (nbl.map (fun n => (n, g.inDegree n t)))
       let o := degJ (nbl.map (fun n => (n, g.outDegree n t)))
@@ -316,6 +317,8 @@ def exec (s : St) (w : List String) : St × J :=
   | "fcycle" :: k :: t :: n :: rest => mutate s (tokN k) (fun g => g.addCycle ((rest.take (tokN n)).map tokN) (tokI t))
   | ["node", k, n] => mutate s (tokN k) (fun g => (g.addNode (tokN n), none))
   | ["attr", k, n, a] => mutate s (tokN k) (fun g => (g.setAttr (tokN n) (tokN a), none))
+  | ["clear", k] => mutate s (tokN k) (fun g => (g.clear, none))
+  | ["clearedges", k] => mutate s (tokN k) (fun g => (g.clearEdges, none))
   | ["gattr", k, a] => mutate s (tokN k) (fun g => ({ g with gattr := tokN a }, none))
   | ["dump", k] => withG s k dumpJ
   | ["fstream", k] => withG s k streamJ
@@ -389,7 +392,7 @@ def exec (s : St) (w : List String) : St × J :=
       | none => (s, .str "E:KeyError")
       | some g =>
         let d := g.nodeLinkData
-        let d := if keep == "1" then d else { d with directed := none }
+        let d := if keep == "1" then d else { d with directed := none, links := [] }
         storeRes s (tokN dst) (nodeLinkGraph d (dflt == "1")))
   | ["nlrt2", src, dst] =>
     (match s.get (tokN src) with
